@@ -80,4 +80,16 @@ PROPS = {
             "thorough": [dict(test="TestC17Model", checks=150000, shards=16, timeout=3000), dict(test="TestC17Regression", mode="plain")],
         },
     ),
+    "C06": dict(
+        kind="ext", pkg="./c06", level="exploration", engine="bubble",
+        technique="stateful model-based property testing (rapid operation histories in a synctest bubble against a reference model with probe-resolved partial applications)",
+        level_text="Generated histories of Store / Await* / cancel / PubKeyByAttestation / expiry over a small overlapping key universe against the production MemDB; "
+                   "the model predicts which stores must be rejected, which answers are allowed per key (uniqueness over time, only offered data), and that no query stays blocked after a successful store of its key.",
+        level_note="Single-threaded histories with concurrent blocked queries (goroutines parked in Await*); lock-level interleavings are not controlled. "
+                   "Order-dependent outcomes of multi-entry sets (Go map order) are accepted either way and the resulting state is learnt by probing.",
+        runs={
+            "quick": [dict(test="TestC06Model", checks=5000, shards=4)],
+            "thorough": [dict(test="TestC06Model", checks=80000, shards=16, timeout=3000)],
+        },
+    ),
 }
